@@ -25,6 +25,12 @@ Inductive rp_step :=
 Inductive batch_loop :=
 | AddEachOutputUnderItsKey.   (* for key, outs in worker.map(test_iter): for cn, cr in outs.items(): results.add_result(cn, key, cr) *)
 
+(* the module-level helpers batch.recommend / score / predict: which request they put on their runner, with which of their own parameters *)
+Inductive helper_setup :=
+| HSRecommendN            (* runner.recommend(n=n): the list length is handed on whatever its value (None, 0, ...) *)
+| HSScore                 (* runner.score() *)
+| HSPredict.              (* runner.predict() *)
+
 Inductive shutdown_step := ShutPool | ShutManager.
 
 (* what SHMPickler.reducer_override does with an object, rule by rule, in source order; anything that is
